@@ -3,6 +3,9 @@ jax.core.get_opaque_trace_state, which this flax version calls when constructing
 nnx Variables. The alias changes jax, not flax."""
 import os
 os.environ.setdefault('JAX_PLATFORMS', 'cpu')
+# several host devices, so that pmap / pad_shard_unpad have something to shard over (C20)
+if 'xla_force_host_platform_device_count' not in os.environ.get('XLA_FLAGS', ''):
+  os.environ['XLA_FLAGS'] = (os.environ.get('XLA_FLAGS', '') + ' --xla_force_host_platform_device_count=4').strip()
 import jax  # noqa: E402
 import jax.extend.core  # noqa: E402
 
